@@ -9,7 +9,7 @@ use cw_utils::{Duration, Expiration, ThresholdResponse};
 use serde_json::{json, Value};
 
 use crate::chain::{Entry, Event, Frame, Kind, ModMsg, TxResult};
-use crate::paging::{check_paging, LIMITS};
+use crate::paging::{check_paging, check_stale_cursors, LIMITS};
 use crate::rawkeys;
 use crate::trace::{Step, Violation};
 use crate::world_a::expired;
@@ -1447,6 +1447,21 @@ impl WorldC {
             if let Err((c, d)) = r {
                 viols.push((if self.is_stake { "cw4-stake-list-members".into() } else { "cw4-group-list-members".into() }, c, d));
             }
+            // cursors that are valid addresses but not (or no longer) members
+            let stale: Vec<String> = self.universe.iter().filter(|a| !expected.iter().any(|e| &e.0 == *a)).take(4).cloned().collect();
+            let r = check_stale_cursors::<(String, u64), String>(
+                &expected,
+                &|cur, lim| {
+                    chain
+                        .query::<cw4::MemberListResponse>("group", &json!({"list_members":{"start_after":cur,"limit":lim}}))
+                        .map(|r| r.members.into_iter().map(|m| (m.addr, m.weight)).collect())
+                },
+                &|i| i.0.clone(),
+                &stale,
+            );
+            if let Err((c, d)) = r {
+                viols.push((if self.is_stake { "cw4-stake-list-members".into() } else { "cw4-group-list-members".into() }, c, d));
+            }
             for (a, w) in expected.iter().take(40) {
                 if let Ok(q) = chain.query::<cw4::MemberResponse>("group", &json!({"member":{"addr": a, "at_height": null}})) {
                     if q.weight != Some(*w) {
@@ -1559,6 +1574,20 @@ impl WorldC {
                 &|i| i.0.clone(),
                 &limits,
                 &mut pages,
+            );
+            if let Err((c, d)) = r {
+                viols.push((format!("{}-list-voters", name), c, d));
+            }
+            let stale: Vec<String> = self.universe.iter().filter(|a| !exp_voters.iter().any(|e| &e.0 == *a)).take(4).cloned().collect();
+            let r = check_stale_cursors::<(String, u64), String>(
+                &exp_voters,
+                &|cur, lim| {
+                    chain
+                        .query::<cw3::VoterListResponse>(&m.label, &json!({"list_voters":{"start_after":cur,"limit":lim}}))
+                        .map(|r| r.voters.into_iter().map(|v| (v.addr, v.weight)).collect())
+                },
+                &|i| i.0.clone(),
+                &stale,
             );
             if let Err((c, d)) = r {
                 viols.push((format!("{}-list-voters", name), c, d));
